@@ -608,8 +608,9 @@ class Interp:
         # a link never joins an interface with its own parent / sub-interface (not a meaningful topology)
         keep = []
         for c in refs:
-            if not any(c in s.children_cp(o) or c in s.parent_cp(o) for o in keep):
-                keep.append(c)
+            if not any(c in s.children_cp(o) or c in s.parent_cp(o) or
+                       (s.parent_cp(c) and s.parent_cp(c) == s.parent_cp(o)) for o in keep):
+                keep.append(c)          # (nor two sub-interfaces of one port: a loop-back on one physical port)
         refs = keep
         if len(refs) < 2 and not op.get("fault"):
             raise Skip()
